@@ -16,6 +16,7 @@ type runCfg struct {
 	meta  string // meta json
 	n     int
 	extra string
+	only  int
 }
 
 var families = map[string]func(cfg *runCfg){}
@@ -33,6 +34,7 @@ func main() {
 	fs.StringVar(&cfg.meta, "meta", "meta.json", "meta output file")
 	fs.IntVar(&cfg.n, "n", 0, "number of generated cases (0 = tier default)")
 	fs.StringVar(&cfg.extra, "x", "", "family-specific argument (e.g. replay file)")
+	fs.IntVar(&cfg.only, "only", -1, "run only the scenario with this index (replay)")
 	fs.Parse(os.Args[2:])
 	if v := os.Getenv("VERIF_SEED"); v != "" && cfg.seed == 1 {
 		if s, err := strconv.ParseInt(v, 10, 64); err == nil {
